@@ -495,6 +495,47 @@ def setRow (x : Ext) (cfg : Cfg) (s : SW) (cell : Bytes) (values : List Item) (o
           ({ s1 with rows := row, raw := (s1.raw.write (renderRow x rec_)).sync cfg,
                      log := s1.log ++ [rec_] }, none)
 
+/-! ### `SetRow` as the code runs it: write as you go, roll back on a rejected cell
+
+`setRow` above states the *effect* of the roll-back (a rejected row returns the old state). `setRowRaw` is the code's own
+order of events: remember `sheetWritten` and `buf.Len()`, `writeSheetData`, write the row start, write cell after cell, and
+on a rejected cell restore the flag and `buf.Truncate(size)`. `Lemmas/Stream2.lean: setRowRaw_eq_setRow` proves the two equal. -/
+
+/-- `bytes.Buffer.Truncate(n)` on the in-memory buffer -/
+def BW.truncate (w : BW) (n : Nat) : BW := { w with buf := w.buf.take n }
+
+/-- the cell loop of `SetRow`, writing each accepted cell at once; stops at the first rejected cell -/
+def rowLoop (x : Ext) (cs : ColStyles) (rowStyle : Int) (row : Int) : Int → List Item → BW → BW × Option E
+  | _, [], w => (w, none)
+  | col, it :: rest, w =>
+    if it.isSkip then rowLoop x cs rowStyle row (col + 1) rest w
+    else match coordinatesToCellName col row false with
+      | .error e => (w, some (.ref e))
+      | .ok ref =>
+        match mkCell x cs rowStyle ref col it with
+        | .error e => (w, some e)
+        | .ok c => rowLoop x cs rowStyle row (col + 1) rest (w.write (writeCell x c))
+
+/-- `SetRow` with the explicit `rollback` closure (`sw.sheetWritten = sheetWritten; sw.rawData.buf.Truncate(size)`);
+the ghost `preW` follows the bytes -/
+def setRowRaw (x : Ext) (cfg : Cfg) (s : SW) (cell : Bytes) (values : List Item) (o : RowOpts) : SW × Option E :=
+  match cellNameToCoordinates cell with
+  | .error e => (s, some (.ref e))
+  | .ok (col, row) =>
+    if row ≤ s.rows then (s, some .order)
+    else match marshalAttrs o with
+      | .error e => (s, some e)
+      | .ok attrs =>
+        let sheetWritten := s.sheetWritten
+        let size := s.raw.buf.length
+        let s1 := writeSheetData s
+        let w1 := s1.raw.write (lit "<row r=\"" ++ itoaInt row ++ lit "\"" ++ attrs ++ lit ">")
+        match rowLoop x s.colStyles o.style row col values w1 with
+        | (w2, some e) => ({ s1 with sheetWritten := sheetWritten, raw := w2.truncate size, preW := s.preW }, some e)
+        | (w2, none) =>
+          ({ s1 with rows := row, raw := (w2.write (lit "</row>")).sync cfg,
+                     log := s1.log ++ [{ row := row, attrs := attrs, cells := (match rowCells x s.colStyles o.style row col values with | .ok cells => cells | .error _ => []) }] }, none)
+
 /-- `MergeCell` -/
 def mergeCell (s : SW) (tl br : Bytes) : SW × Option E :=
   match cellNameToCoordinates tl with
